@@ -15,6 +15,10 @@ Recognised (anything else becomes `.unknown`, which no reference term contains, 
   the bytes joined first and decoded ONCE (an `as_text` that joins the pieces of `iter_text` is `.unknown`).
 * `content_from_reader`: `if content_type is None: content_type = UTF8_TEXT`; `if buffer_now: contents = list(reader())` + a local
   `def reader(): return contents` (also a lambda); `return Content(content_type, reader)`.
+* `content_from_stream` / `content_from_file`: the content-type default; a nested `def reader():` (for a stream also `reader = lambda: …`) whose
+  body CALLS `_iter_chunks(stream, chunk_size, seek_offset, seek_whence)` - so every evaluation of the content gets a new generator that seeks
+  again and reads to the end; for a file inside `with open(path, "rb") as stream:` with `yield from`; `return content_from_reader(reader,
+  content_type, buffer_now)`.  Read from the statements as they stand (no inlining): a generator made once and captured is `.unknown`.
 * `_iter_chunks`: `if seek_offset is not None: stream.seek(seek_offset, seek_whence)`; `chunk = stream.read(chunk_size)`; `while chunk:`
   with body steps `yield chunk` / `chunk = stream.read(chunk_size)`; or the rotated loop `while True:` with body steps `chunk = stream.read(chunk_size)` /
   `if not chunk: break` / `yield chunk` (transcribed as it stands; that it means the same is proved in Lean: `chunksI_refRotated`).
@@ -134,6 +138,48 @@ def content_from_reader(fn):
             continue
         if isinstance(s, ast.Return) and u(s.value) == 'Content(%s, %s)' % (ctype, reader):
             steps.append('.returnContent')
+            continue
+        steps.append('.unknown')
+    return '[%s]' % ', '.join(steps)
+
+
+# ---------------------------------------------------------------- content_from_stream / content_from_file
+def content_from_source(fn, is_file):
+    """`if content_type is None: content_type = UTF8_TEXT`; a nested `def reader():` (or `reader = lambda: ...`) whose EVERY call makes a new
+    `_iter_chunks(stream, chunk_size, seek_offset, seek_whence)` generator - for a file inside `with open(path, "rb") as stream:` with `yield from`;
+    `return content_from_reader(reader, content_type, buffer_now)`.  A generator made once and captured (seed C16-f: `chunks = _iter_chunks(...)`,
+    `lambda: chunks`) is `.unknown`: only a call of _iter_chunks INSIDE the reader's body is recognised."""
+    ps = [a.arg for a in fn.args.posonlyargs + fn.args.args]
+    if len(ps) != 6 or fn.args.vararg or fn.args.kwarg or fn.args.kwonlyargs:
+        return '[.unknown]'
+    src, ctype, size, bnow, off, wh = ps
+    steps = []
+    reader = None
+    for st in nocomment(fn.body):       # (NOT pynorm's normal form: inlining a once-made generator into the lambda would be exactly the seeded bug)
+        if isinstance(st, ast.If) and not st.orelse and u(st.test) == '%s is None' % ctype and [u(y) for y in nocomment(st.body)] == ['%s = UTF8_TEXT' % ctype]:
+            steps.append('.defaultType')
+            continue
+        if isinstance(st, ast.FunctionDef) and reader is None and not (st.args.args or st.args.vararg or st.args.kwarg or st.args.kwonlyargs or st.decorator_list):
+            b = nocomment(st.body)
+            kind = '.unknown'
+            if not is_file and len(b) == 1 and u(b[0]) in ('return _iter_chunks(%s, %s, %s, %s)' % (src, size, off, wh),
+                                                            'yield from _iter_chunks(%s, %s, %s, %s)' % (src, size, off, wh)):
+                kind = '.freshIterChunks'
+            if is_file and len(b) == 1 and isinstance(b[0], ast.With) and len(b[0].items) == 1 and b[0].items[0].optional_vars is not None \
+                    and u(b[0].items[0].context_expr) in ("open(%s, 'rb')" % src, "open(%s, mode='rb')" % src):
+                f = u(b[0].items[0].optional_vars)
+                if [u(y) for y in nocomment(b[0].body)] == ['yield from _iter_chunks(%s, %s, %s, %s)' % (f, size, off, wh)]:
+                    kind = '.openThenFreshIterChunks'
+            reader = st.name
+            steps.append('(.defReader %s)' % kind)
+            continue
+        if isinstance(st, ast.Assign) and reader is None and len(st.targets) == 1 and isinstance(st.targets[0], ast.Name) and isinstance(st.value, ast.Lambda) \
+                and not is_file and not st.value.args.args and u(st.value.body) == '_iter_chunks(%s, %s, %s, %s)' % (src, size, off, wh):
+            reader = st.targets[0].id
+            steps.append('(.defReader .freshIterChunks)')
+            continue
+        if isinstance(st, ast.Return) and reader and u(st.value) == 'content_from_reader(%s, %s, %s)' % (reader, ctype, bnow):
+            steps.append('.returnFromReader')
             continue
         steps.append('.unknown')
     return '[%s]' % ', '.join(steps)
@@ -348,8 +394,8 @@ def generate(repo):
     real = ast.parse(open(os.path.join(repo, 'testtools', 'testresult', 'real.py')).read())
     return '''import TTV.Model.ContentSkel
 /-! GENERATED by harness/pycontent2lean.py from testtools/content.py, content_type.py and testresult/real.py on every run - do not edit.
-`Content._iter_text`, `content_from_reader`, `_iter_chunks`, `ContentType.__repr__` / `_quote` and the charset work-around of
-`_make_content_type`, as data. -/
+`Content._iter_text`, `content_from_reader`, `content_from_stream` / `content_from_file`, `_iter_chunks`, `ContentType.__repr__` / `_quote` and the
+charset work-around of `_make_content_type`, as data. -/
 namespace TTV.Generated.ContentSrc
 open TTV.ContentSkel
 
@@ -358,6 +404,10 @@ def iterText : List TextStep := %s
 def asText : List AsTextStep := %s
 
 def contentFromReader : List ReaderStep := %s
+
+def contentFromStream : List MakeStep := %s
+
+def contentFromFile : List MakeStep := %s
 
 def iterChunks : ChunksSrc :=
     %s
@@ -369,7 +419,8 @@ def charsetFix : FixSrc :=
     %s
 
 end TTV.Generated.ContentSrc
-''' % (iter_text(find(c, 'Content._iter_text')), as_text(find(c, 'Content.as_text')), content_from_reader(find(c, 'content_from_reader')), iter_chunks(find(c, '_iter_chunks')),
+''' % (iter_text(find(c, 'Content._iter_text')), as_text(find(c, 'Content.as_text')), content_from_reader(find(c, 'content_from_reader')),
+       content_from_source(find(c, 'content_from_stream'), False), content_from_source(find(c, 'content_from_file'), True), iter_chunks(find(c, '_iter_chunks')),
        repr_fn(find(ct, 'ContentType')), charset_fix(find(real, '_make_content_type')))
 
 
